@@ -109,6 +109,7 @@ def build_axioms():
                         _imp(z3.And(e == d, lo2 == hi, 0 <= lo, lo <= hi, hi <= hi2, hi2 <= blen(d)),
                              cat(sl(d, lo, hi), sl(e, lo2, hi2)) == sl(d, lo, hi2)),
                         [cat(sl(d, lo, hi), sl(e, lo2, hi2))]))
+    ax('cat_assoc', FA([d, e, f], cat(cat(d, e), f) == cat(d, cat(e, f)), [cat(cat(d, e), f)]))
     ax('cat_empty_l', FA([d], cat(bempty, d) == d, [cat(bempty, d)]))
     ax('cat_empty_r', FA([d], cat(d, bempty) == d, [cat(d, bempty)]))
     ax('sl_cat_l', FA([d, e, lo, hi], _imp(z3.And(0 <= lo, lo <= hi, hi <= blen(d)),
@@ -259,7 +260,24 @@ def ground_unfold(formulas):
 _INTERP_KINDS = None
 
 
+_SYM_CACHE = {}        # z3 ast id -> frozenset of symbols (terms are hash-consed: an id denotes one term per context)
+_PAT_CACHE = {}
+
+
 def _fsyms(t, acc, depth=0):
+    """symbols of term t (memoised per subterm: path conditions are shared by many obligations)"""
+    tid = t.get_id()
+    got = _SYM_CACHE.get(tid)
+    if got is not None:
+        acc |= got[0]
+        return
+    mine = set()
+    _fsyms_raw(t, mine)
+    _SYM_CACHE[tid] = (frozenset(mine), t)      # keep the term alive so that its id is not reused
+    acc |= mine
+
+
+def _fsyms_raw(t, acc, depth=0):
     if z3.is_quantifier(t):
         _fsyms(t.body(), acc)
         for i in range(t.num_patterns()):
@@ -287,6 +305,16 @@ def formula_symbols(fs):
 
 
 def pattern_symbol_sets(q):
+    qid = q.get_id()
+    got = _PAT_CACHE.get(qid)
+    if got is not None:
+        return got[0]
+    out = _pattern_symbol_sets_raw(q)
+    _PAT_CACHE[qid] = (out, q)
+    return out
+
+
+def _pattern_symbol_sets_raw(q):
     out = []
     if not z3.is_quantifier(q):
         return [set()]
